@@ -198,7 +198,7 @@ def cases_for(pid, tr, rng, drv, wd, late=()):
         # dry run to learn how many messages each peer sends in a complete run
         for scheme, mode in (("bls", "loud"), ("ps", "loud"), ("bls", "silent")) if big else (("bls", "loud"), ("ps", "silent")):
             n, t = 3, 2
-            rc, out, err = vlib.run_driver(drv, ["stack"], stdin_obj=dict(cases=[case(scheme, mode, n, t, 1, sign=False)], workers=1), timeout=120)
+            rc, out, err = vlib.run_driver(drv, ["stack"], stdin_obj=dict(cases=[case(scheme, mode, n, t, 1, sign=False)], workers=1), timeout=400)
             total = 0
             for line in out.splitlines():
                 o = json.loads(line)
@@ -232,7 +232,7 @@ def cases_for(pid, tr, rng, drv, wd, late=()):
         # the EdDSA adapter (tss-lib behind the MpcParty interface) through the complete stack: same fault catalogue
         for mode in (("loud", "silent") if big else ("loud",)):
             n, t = 3, 2
-            rc, out, err = vlib.run_driver(drv, ["stack"], stdin_obj=dict(cases=[case("eddsa", mode, n, t, 1, sign=False, deadline=20000)], workers=1), timeout=120)
+            rc, out, err = vlib.run_driver(drv, ["stack"], stdin_obj=dict(cases=[case("eddsa", mode, n, t, 1, sign=False, deadline=20000)], workers=1), timeout=400)
             total = 0
             for line in out.splitlines():
                 o = json.loads(line)
